@@ -100,7 +100,15 @@ func (ex *Exec) callFunction(fr *Frame, st *State, fn *ssa.Function, args []Val,
 		return ex.externalCall(fr, st, fn, args, argVals, pos)
 	}
 	ct := ex.C.Funcs[key]
+	nilRecvCheck := func() {
+		if recv := fn.Signature.Recv(); recv != nil && len(args) > 0 && (ct == nil || !ct.NilRecv) && ex.specMode == 0 {
+			if _, isPtr := recv.Type().Underlying().(*types.Pointer); isPtr {
+				ex.oblige(fr, st, "nil", "recv@call:"+key, not(eq(args[0].L[0], "0")), pos, "method "+key+" called on a nil receiver: "+ex.srcLine(pos))
+			}
+		}
+	}
 	if ct != nil && !ct.Inline && ex.specMode == 0 {
+		nilRecvCheck()
 		return ex.applyContract(fr, st, fn, ct, args, pos)
 	}
 	if ex.canInline(fr, fn, ct) {
@@ -108,6 +116,7 @@ func (ex *Exec) callFunction(fr *Frame, st *State, fn *ssa.Function, args []Val,
 			return r
 		}
 	}
+	nilRecvCheck()
 	return ex.opaqueCall(fr, st, fn, args, pos)
 }
 
@@ -275,7 +284,8 @@ func (ex *Exec) havocArgs(fr *Frame, st *State, args []Val, argVals []ssa.Value)
 	for i, a := range args {
 		switch t := a.T.Underlying().(type) {
 		case *types.Slice:
-			ex.havocMemBase(st, t.Elem(), a.L[0])
+			_ = t
+			ex.havocSlice(st, a)
 		case *types.Pointer:
 			if i < len(argVals) {
 				tg := ex.resolve(fr, st, argVals[i])
@@ -317,6 +327,34 @@ func (ex *Exec) havocMemBase(st *State, E types.Type, base string) {
 		srt := sArr(sInt, sArr(bv64, l.Sort))
 		m := ex.heapGet(st, k, srt)
 		st.heap[k] = ex.def(k, srt, store(m, base, ex.fresh("extmem", sArr(bv64, l.Sort))))
+	}
+}
+
+// havocSlice forgets the elements s[0:len(s)] (a library function wrote them).
+func (ex *Exec) havocSlice(st *State, s Val) {
+	sl, ok := s.T.Underlying().(*types.Slice)
+	if !ok || len(s.L) != 4 {
+		return
+	}
+	E := sl.Elem()
+	if _, ok := isPlainStruct(E); ok {
+		ex.havocKeys(st, ex.structKeys(E))
+		return
+	}
+	ls := flatten(E)
+	for li, l := range ls {
+		k := memKey(E, l, len(ls))
+		srt := sArr(sInt, sArr(bv64, l.Sort))
+		m := ex.heapGet(st, k, srt)
+		if li == 0 {
+			ex.writeMem(st, []string{k}, s.L[0], s.L[1], app("bvadd", s.L[1], s.L[2]))
+		}
+		d := sel(m, s.L[0])
+		fr := ex.fresh("extmem", sArr(bv64, l.Sort))
+		na := ex.bulkArray("hv", l.Sort, func(i string) string {
+			return ite(and(app("bvule", s.L[1], i), app("bvult", i, app("bvadd", s.L[1], s.L[2]))), sel(fr, i), sel(d, i))
+		})
+		st.heap[k] = ex.def(k, srt, store(m, s.L[0], na))
 	}
 }
 
